@@ -1,15 +1,17 @@
 #!/bin/sh
 # usage: tools/regress_seeded.sh [ID ...] — applies every kept seeded change of the given properties (default: all) to the
-# repository under test in turn, runs the property's quick check and reports which are caught.  The tree is restored after each.
+# repository under test in turn, runs the deciding quick check (the property's own, unless meta.json names another one under
+# "check") and reports which are caught.  The tree is restored after each.
 cd "$(dirname "$(readlink -f "$0")")/.."
 IDS="${*:-C04 C07 C08 C11 C13 C17 C18 C19 C20}"
 miss=0
 for id in $IDS; do
   for d in seeded/$id-*; do
-    out=$(sh tools/try_mutant.sh $d/patch.diff $id 2>&1 | grep -a "simworld: $id quick" | tail -1)
+    chk=$(/usr/bin/python3 -c "import json,sys; print(json.load(open('$d/meta.json')).get('check','$id'))")
+    out=$(sh tools/try_mutant.sh $d/patch.diff $chk 2>&1 | grep -a "simworld: $chk quick" | tail -1)
     case "$out" in
-      *VIOLATION*) echo "caught $d";;
-      *) echo "MISSED $d :: $out"; miss=$((miss+1));;
+      *VIOLATION*) echo "caught $d ($chk)";;
+      *) echo "MISSED $d ($chk) :: $out"; miss=$((miss+1));;
     esac
   done
 done
